@@ -49,6 +49,7 @@ type rewriter struct {
 	pkg     *packages.Package
 	globals map[*types.Var]bool // hooked package-level vars (any package)
 	locals  map[*types.Var]bool
+	elems   map[*types.Var]bool // slice/array variables whose elements are assigned somewhere
 	handled map[ast.Node]bool
 	stats   *Stats
 	usedVrt bool
@@ -66,6 +67,12 @@ func (rw *rewriter) isPixExpr(e ast.Expr) bool {
 	ix, ok := e.(*ast.IndexExpr)
 	if !ok {
 		return false
+	}
+	// element of a shared slice/array variable whose elements are written somewhere
+	if id, ok := ix.X.(*ast.Ident); ok {
+		if v, ok := rw.pkg.TypesInfo.Uses[id].(*types.Var); ok && !v.IsField() && rw.elems[v] {
+			return true
+		}
 	}
 	sel, ok := ix.X.(*ast.SelectorExpr)
 	if !ok {
@@ -167,6 +174,18 @@ func (rw *rewriter) file(f *ast.File) {
 					rw.usedVrt = true
 					continue
 				}
+				if ix, ok := l.(*ast.IndexExpr); ok {
+					if tv, ok := info.Types[ix.X]; ok {
+						if _, isMap := tv.Type.Underlying().(*types.Map); isMap && rw.hookedIdent(ix.X) != nil {
+							// m[k] = v mutates the map: a write of the map variable
+							rw.handled[ix.X] = true
+							ix.X = &ast.ParenExpr{X: hook("W", ix.X)}
+							rw.stats.WriteHooks++
+							rw.usedVrt = true
+							continue
+						}
+					}
+				}
 				if root := rw.valueRoot(l); root != nil && root != l && rw.hookedIdent(root) != nil {
 					// x.f = v / x[i] = v on a struct or array variable writes x's memory
 					rw.handled[root] = true
@@ -199,6 +218,13 @@ func (rw *rewriter) file(f *ast.File) {
 				if rw.isPixExpr(n.X) {
 					rw.handled[n.X] = true
 				}
+			}
+		case *ast.CallExpr:
+			if id, ok := n.Fun.(*ast.Ident); ok && id.Name == "delete" && len(n.Args) == 2 && rw.hookedIdent(n.Args[0]) != nil {
+				rw.handled[n.Args[0]] = true
+				n.Args[0] = hook("W", n.Args[0])
+				rw.stats.WriteHooks++
+				rw.usedVrt = true
 			}
 		case *ast.SelectorExpr:
 			// never rewrite the Sel identifier
@@ -336,6 +362,7 @@ func Generate(repoDir, outDir, shimDir string) (overlayPath string, st Stats, er
 	// pass 1: which package-level variables are written outside init, which
 	// locals are captured by a function literal and written after their definition
 	globals := map[*types.Var]bool{}
+	elems := map[*types.Var]bool{}
 	localsByPkg := map[*packages.Package]map[*types.Var]bool{}
 	syncVarsUsed := map[*types.Var]bool{}
 	for _, p := range pkgs {
@@ -362,6 +389,21 @@ func Generate(repoDir, outDir, shimDir string) (overlayPath string, st Stats, er
 							if _, isArr := tv.Type.Underlying().(*types.Array); isArr {
 								e = x.X
 								continue
+							}
+							if _, isMap := tv.Type.Underlying().(*types.Map); isMap {
+								e = x.X // m[k] = v writes the map
+								continue
+							}
+							if _, isSlice := tv.Type.Underlying().(*types.Slice); isSlice {
+								// element of a slice variable: remember the variable so that
+								// every element access of it is hooked (the header is only read)
+								if id, ok := x.X.(*ast.Ident); ok {
+									if v, ok := info.Uses[id].(*types.Var); ok && !v.IsField() {
+										if v.Parent() != v.Pkg().Scope() || !inRanges(id.Pos(), inits) {
+											elems[v] = true
+										}
+									}
+								}
 							}
 						}
 					case *ast.Ident:
@@ -451,7 +493,7 @@ func Generate(repoDir, outDir, shimDir string) (overlayPath string, st Stats, er
 		needImports := map[string]string{}
 		for i, f := range p.Syntax {
 			path := p.CompiledGoFiles[i]
-			rw := &rewriter{fset: p.Fset, pkg: p, globals: globals, locals: localsByPkg[p], handled: map[ast.Node]bool{}, stats: &st}
+			rw := &rewriter{fset: p.Fset, pkg: p, globals: globals, locals: localsByPkg[p], elems: elems, handled: map[ast.Node]bool{}, stats: &st}
 			// sync import -> shim
 			for _, im := range f.Imports {
 				if im.Path.Value == `"sync"` {
